@@ -60,6 +60,9 @@ pub fn alphabet(w: i32, h: i32) -> Vec<Op> {
         Op::PushClipRect(w - 1, h - 1, 1, 1),
         Op::PopClip,
         // strokes
+        // a draw without antialiasing that adds no edge (whatever mode it leaves behind shows in the
+        // next clip push)
+        Op::Fill(PathSpec::new(tri(-5.0, -2.0)), SrcSpec::Solid(RED), Opts { mode: BlendMode::SrcOver, alpha: 1.0, aa: false }),
         Op::Stroke(PathSpec::new(tri(0.5, hf - 0.5)), StyleSpec { width: 0.0, cap: 0, join: 0, miter: 4., dash: vec![], offset: 0. }, SrcSpec::Solid(RED), Opts::default()),
         Op::Stroke(PathSpec::new(vec![POp::L(0.5, 0.5), POp::L(wf - 0.5, hf - 0.5)]), StyleSpec { width: 1.0, cap: 1, join: 1, miter: 4., dash: vec![1.0, 0.5], offset: 0.25 }, SrcSpec::Solid(GRN), Opts::default()),
         // transforms
@@ -151,8 +154,31 @@ fn state_key(s: &Snap, cursor: (Option<Point>, Option<Point>)) -> u64 {
 fn check_last(w: i32, h: i32, hist: &[Op]) -> Result<u64, Violation> {
     let n = hist.len();
     let case = hist_str(w, h, hist);
-    let r = guard(|| {
-        let mut a = Scene { w, h, dst: base_dst(), ops: vec![] }.target();
+    // short histories run on two fresh threads: the long-lived target's thread first works through
+    // every call of the alphabet on another target (so that whatever the library keeps outside a
+    // DrawTarget - statics, thread-locals - has been used), the fresh target's thread has never run
+    // a call of the library. Both are functions of the history alone, so a violation replays.
+    let fresh_thread = n <= 2 || (n == 3 && matches!(hist[n - 1], Op::PopLayer));
+    let base = base_dst();
+    let run_a = || {
+        if fresh_thread {
+            let mut s = DrawTarget::new(w, h);
+            for op in alphabet(w, h) {
+                if matches!(op, Op::PopClip | Op::PopLayer) {
+                    continue;
+                }
+                exec(&mut s, &op);
+                match op {
+                    Op::PushClip(_) | Op::PushClipRect(..) => exec(&mut s, &Op::PopClip),
+                    Op::PushLayer(..) => {
+                        exec(&mut s, &Op::Clear(0xff00ff00));
+                        exec(&mut s, &Op::PopLayer)
+                    }
+                    _ => {}
+                }
+            }
+        }
+        let mut a = Scene { w, h, dst: base.clone(), ops: vec![] }.target();
         for op in &hist[..n - 1] {
             exec(&mut a, op);
         }
@@ -160,8 +186,10 @@ fn check_last(w: i32, h: i32, hist: &[Op]) -> Result<u64, Violation> {
         exec(&mut a, &hist[n - 1]);
         let after = snap(&a);
         let cur = a.verif_path_cursor();
-        (before, after, cur)
-    });
+        (before, after, cur.0.map(|p| (p.x, p.y)), cur.1.map(|p| (p.x, p.y)))
+    };
+    let r = if fresh_thread { std::thread::scope(|sc| sc.spawn(|| guard(run_a)).join().unwrap_or_else(|_| Err("the thread died".to_string()))) } else { guard(run_a) };
+    let r = r.map(|(b, a, c0, c1)| (b, a, (c0.map(|p| Point::new(p.0, p.1)), c1.map(|p| Point::new(p.0, p.1)))));
     let (before, after, cursor) = match r {
         Ok(v) => v,
         Err(p) => return Err(Violation::new(format!("{}/panic", hist[n - 1].kind()), case, format!("long-lived target panicked: {}", p))),
@@ -171,7 +199,7 @@ fn check_last(w: i32, h: i32, hist: &[Op]) -> Result<u64, Violation> {
     }
     // fresh target B with the same visible state
     let t = track(&hist[..n - 1]);
-    let rb = guard(|| {
+    let build_b = || {
         let mut b = DrawTarget::from_vec(w, h, before.base.clone());
         let mut first_layer: Option<(usize, Xf)> = None;
         for o in &t.open {
@@ -198,7 +226,11 @@ fn check_last(w: i32, h: i32, hist: &[Op]) -> Result<u64, Violation> {
         let b_before = snap(&b);
         exec(&mut b, &hist[n - 1]);
         (b_before, snap(&b))
-    });
+    };
+    // short histories: the fresh target lives on a thread of its own that has never run a call of
+    // the library (anything the library keeps outside the DrawTarget - statics, thread-locals - is
+    // pristine there, while the long-lived target's thread has run thousands of calls before)
+    let rb = if fresh_thread { std::thread::scope(|sc| sc.spawn(|| guard(build_b)).join().unwrap_or_else(|_| Err("the fresh thread died".to_string()))) } else { guard(build_b) };
     let (b_before, b_after) = match rb {
         Ok(v) => v,
         Err(p) => return Err(Violation::new(format!("{}/panic-on-fresh-target-only", hist[n - 1].kind()), case, format!("fresh target panicked: {}", p))),
@@ -477,7 +509,7 @@ impl Check for C10 {
 
     fn run(&self, run: &Run) {
         let q = run.tier.quick();
-        run.rule("histories over a 40-call alphabet (fills of very different vertical extents, off-surface and degenerate paths, paths without MoveTo / without Close, curves, clip pushes of on/off-surface paths, clip rect, pops, zero-width and dashed strokes, singular / identity / fractional transforms, clear, fast-path fill_rect, a transparent fill_rect, layers (one composited with Src), a surface copy) are explored exhaustively; every transition is compared with the same call on a fresh target holding the same visible state (open layers re-established by replaying their draws, and a second time by pushing them and copying their pixels in); non-trivial = history contains at least two drawing calls");
+        run.rule("histories over a 41-call alphabet (fills of very different vertical extents, off-surface and degenerate paths, paths without MoveTo / without Close, curves, clip pushes of on/off-surface paths, clip rect, pops, zero-width and dashed strokes, singular / identity / fractional transforms, clear, fast-path fill_rect, a transparent fill_rect, layers (one composited with Src), a surface copy) are explored exhaustively; every transition is compared with the same call on a fresh target holding the same visible state (open layers re-established by replaying their draws, and a second time by pushing them and copying their pixels in; for histories of length <= 2, and pops of length 3, the fresh target lives on a fresh thread); non-trivial = history contains at least two drawing calls");
         run.assume("merging: two histories with equal (all buffers, transform, clip stack, layer stack, rasteriser idle flag, hidden path cursor) differ at most in the rasteriser's arena address and cur_y, both re-initialised before use; keys are 64-bit hashes");
         no_growth(run, 4, 4);
         if q {
